@@ -28,8 +28,12 @@ use std::rc::Rc;
 #[derive(Clone, Debug, PartialEq, Eq)]
 pub enum Tok {
     Ws,
-    /// an empty comment `/**/`: white space of another token kind (`Token::Comment`)
-    Cmt,
+    /// white space in another spelling (wave 5: the spelling dimension): 0 = an empty comment `/**/` (`Token::Comment`),
+    /// 1 = a line continuation, backslash + line end (`Token::PhysicalEndline`; request token `~c`), 2 = a tab (request
+    /// token `~t`), 3 = a line comment `//c` (only the last token of a line lexes faithfully), 4 = a block comment that
+    /// holds a line end (request token `/*n*/`, spelled `/*` LF `*/`): the logical line continues behind it, 5 = a line end
+    /// inside the value of an API define (request token `~n`; nowhere else: a line of a file can not hold one)
+    Cmt(u8),
     LParen,
     RParen,
     Comma,
@@ -103,7 +107,12 @@ fn parse_tok(s: &str) -> Option<Tok> {
     let b = s.as_bytes();
     Some(match s {
         "~" => Tok::Ws,
-        "/**/" => Tok::Cmt,
+        "/**/" => Tok::Cmt(0),
+        "~c" => Tok::Cmt(1),
+        "~t" => Tok::Cmt(2),
+        "//c" => Tok::Cmt(3),
+        "/*n*/" => Tok::Cmt(4),
+        "~n" => Tok::Cmt(5),
         "(" => Tok::LParen,
         ")" => Tok::RParen,
         "," => Tok::Comma,
@@ -132,7 +141,12 @@ fn parse_toks(s: &str) -> Option<Vec<Tok>> {
 fn enc_tok(t: &Tok) -> String {
     match t {
         Tok::Ws => "~".into(),
-        Tok::Cmt => "/**/".into(),
+        Tok::Cmt(0) => "/**/".into(),
+        Tok::Cmt(1) => "~c".into(),
+        Tok::Cmt(2) => "~t".into(),
+        Tok::Cmt(3) => "//c".into(),
+        Tok::Cmt(5) => "~n".into(),
+        Tok::Cmt(_) => "/*n*/".into(),
         Tok::LParen => "(".into(),
         Tok::RParen => ")".into(),
         Tok::Comma => ",".into(),
@@ -148,7 +162,12 @@ fn enc_toks(ts: &[Tok]) -> String {
 fn spell(t: &Tok) -> String {
     match t {
         Tok::Ws => " ".into(),
-        Tok::Cmt => "/**/".into(),
+        Tok::Cmt(0) => "/**/".into(),
+        Tok::Cmt(1) => "\\\n".into(),
+        Tok::Cmt(2) => "\t".into(),
+        Tok::Cmt(3) => "//c".into(),
+        Tok::Cmt(5) => "\n".into(),
+        Tok::Cmt(_) => "/*\n*/".into(),
         _ => enc_tok(t),
     }
 }
@@ -165,13 +184,43 @@ pub enum Line {
     Once,
     Warning,
     Text(Vec<Tok>),
+    /// a directive line that is rejected (request `X kind`): `P` = `#pragma foo`, `P0` = `#pragma`, `C` = `#foo`, `C1` = `#1 foo`,
+    /// `I0` = `#include`, `I1` = `#include foo`, `I2` = `#include "f1" x`
+    Bad(&'static str),
+    /// the null directive: `#` alone on its line (request `N`)
+    Null,
 }
+
+const BAD_KINDS: &[(&str, &str)] =
+    &[("P", "pragma foo"), ("P0", "pragma"), ("C", "foo"), ("C1", "1 foo"), ("I0", "include"), ("I1", "include foo"), ("I2", "include \"f1\" x")];
 
 #[derive(Clone, Debug)]
 pub struct File {
     name: String,
     real: String,
     lines: Vec<Line>,
+    /// how the text of the file is spelled (request: `!` + letters behind the file name): bit 1 (`r`) = every line ends in
+    /// CR LF, bit 2 (`e`) = no line end behind the last line, bit 4 (`h`) = a blank between `#` and the directive name.
+    /// None of them changes the tokens of the file: the model ignores the flags
+    flavour: u8,
+}
+
+fn flavour_letters(f: u8) -> String {
+    let mut s = String::new();
+    if f != 0 {
+        s.push('!');
+    }
+    for (bit, c) in [(1u8, 'r'), (2, 'e'), (4, 'h')] {
+        if f & bit != 0 {
+            s.push(c);
+        }
+    }
+    s
+}
+
+/// the operand of an include line is `name` (rendered `"name"`) or `<name>` (rendered so: `Token::HeaderName`)
+fn inc_name(n: &str) -> &str {
+    n.strip_prefix('<').and_then(|m| m.strip_suffix('>')).unwrap_or(n)
 }
 
 #[derive(Clone, Debug)]
@@ -191,6 +240,8 @@ fn enc_line(l: &Line) -> String {
         Line::Include(n) => format!("I {}", n),
         Line::Once => "O".into(),
         Line::Warning => "W".into(),
+        Line::Bad(k) => format!("X {}", k),
+        Line::Null => "N".into(),
         Line::Text(t) => format!("T {}", enc_toks(t)),
     }
 }
@@ -207,6 +258,8 @@ fn parse_line(s: &str) -> Option<Line> {
         "I" => Line::Include(rest.to_string()),
         "O" => Line::Once,
         "W" => Line::Warning,
+        "N" => Line::Null,
+        "X" => Line::Bad(BAD_KINDS.iter().find(|(k, _)| *k == rest)?.0),
         "T" => Line::Text(parse_toks(rest)?),
         _ => return None,
     })
@@ -232,9 +285,9 @@ impl Program {
         let mut f = vec![if self.strict { "C12.hof".to_string() } else { "C12.run".to_string() }, api];
         for file in &self.files {
             let mut parts = vec![if file.real == file.name {
-                file.name.clone()
+                format!("{}{}", file.name, flavour_letters(file.flavour))
             } else {
-                format!("{}>{}", file.name, file.real)
+                format!("{}>{}{}", file.name, file.real, flavour_letters(file.flavour))
             }];
             parts.extend(file.lines.iter().map(enc_line));
             f.push(parts.join("|"));
@@ -267,6 +320,21 @@ impl Program {
         for ff in &f[2..] {
             let mut parts = ff.split('|');
             let head = parts.next()?.trim();
+            let (head, flavour) = match head.find('!') {
+                Some(i) => {
+                    let mut fl = 0u8;
+                    for c in head[i + 1..].chars() {
+                        fl |= match c {
+                            'r' => 1,
+                            'e' => 2,
+                            'h' => 4,
+                            _ => return None,
+                        };
+                    }
+                    (&head[..i], fl)
+                }
+                None => (head, 0),
+            };
             let (name, real) = match head.find('>') {
                 Some(i) => (&head[..i], &head[i + 1..]),
                 None => (head, head),
@@ -279,6 +347,7 @@ impl Program {
                 name: name.to_string(),
                 real: real.to_string(),
                 lines,
+                flavour,
             });
         }
         Some(Program { api, files, strict })
@@ -293,23 +362,49 @@ impl Program {
                     s.push(' ');
                 }
             }
+            let hash = if file.flavour & 4 != 0 { "# " } else { "#" };
             match l {
                 Line::Define(t) => {
-                    s.push_str("#define");
+                    s.push_str(hash);
+                    s.push_str("define");
                     s.push_str(&spell_all(t));
                 }
                 Line::Undef(t) => {
-                    s.push_str("#undef");
+                    s.push_str(hash);
+                    s.push_str("undef");
                     s.push_str(&spell_all(t));
                 }
                 Line::Include(n) => {
-                    s.push_str(&format!("#include \"{}\"", n));
+                    s.push_str(hash);
+                    if n.starts_with('<') {
+                        s.push_str(&format!("include {}", n));
+                    } else {
+                        s.push_str(&format!("include \"{}\"", n));
+                    }
                 }
-                Line::Once => s.push_str("#pragma once"),
-                Line::Warning => s.push_str("#pragma warning(disable : 1)"),
+                Line::Once => {
+                    s.push_str(hash);
+                    s.push_str("pragma once")
+                }
+                Line::Null => s.push('#'),
+                Line::Bad(k) => {
+                    s.push_str(hash);
+                    s.push_str(BAD_KINDS.iter().find(|(x, _)| x == k).unwrap().1);
+                }
+                Line::Warning => {
+                    s.push_str(hash);
+                    s.push_str("pragma warning(disable : 1)")
+                }
                 Line::Text(t) => s.push_str(&spell_all(t)),
             }
             s.push('\n');
+        }
+        // no line end behind the last line -- unless that line is empty (its line end is then the only trace of it)
+        if file.flavour & 2 != 0 && s.ends_with('\n') && !s.ends_with("\n\n") && s.len() > 1 {
+            s.pop();
+        }
+        if file.flavour & 1 != 0 {
+            s = s.replace('\n', "\r\n");
         }
         s
     }
@@ -324,7 +419,7 @@ use rssl::text::tokens::Token;
 fn tok_of_real(t: &Token) -> Option<Tok> {
     Some(match t {
         Token::Whitespace => Tok::Ws,
-        Token::Comment => Tok::Cmt,
+        Token::Comment => Tok::Cmt(0),
         Token::LeftParen => Tok::LParen,
         Token::RightParen => Tok::RParen,
         Token::Comma => Tok::Comma,
@@ -344,7 +439,7 @@ fn tok_of_real(t: &Token) -> Option<Tok> {
 
 fn spell_real(t: &Token) -> String {
     match tok_of_real(t) {
-        Some(Tok::Ws) | Some(Tok::Cmt) => "~".into(),
+        Some(Tok::Ws) | Some(Tok::Cmt(_)) => "~".into(),
         Some(t) => enc_tok(&t),
         None => match t {
             Token::PlusPlus => "++".into(),
@@ -382,6 +477,10 @@ fn lex_faithful(ts: &[Tok]) -> bool {
                     .all(|(r, t)| match t {
                         // the token read in place is the token the spelling denotes on its own
                         Tok::Raw(s) => canon_single(s) == Some(spell_real(&r.0)),
+                        Tok::Cmt(1) => r.0 == Token::PhysicalEndline,
+                        Tok::Cmt(2) => r.0 == Token::Whitespace,
+                        Tok::Cmt(5) => false,
+                        Tok::Cmt(_) => r.0 == Token::Comment,
                         _ => tok_of_real(&r.0).as_ref() == Some(t),
                     })
         }
@@ -394,7 +493,8 @@ fn program_faithful(p: &Program) -> Result<(), String> {
         if !lex_faithful(n) {
             return Err(format!("api name {}", enc_toks(n)));
         }
-        if !lex_faithful(v) {
+        // a value may hold line ends (`~n`): every piece between them must lex faithfully
+        if !v.split(|t| *t == Tok::Cmt(5)).all(lex_faithful) {
             return Err(format!("api value of {}", enc_toks(n)));
         }
     }
@@ -410,7 +510,7 @@ fn program_faithful(p: &Program) -> Result<(), String> {
             match l {
                 Line::Define(t) | Line::Undef(t) => {
                     // the directive name must be separated from what follows
-                    if !matches!(t.first(), Some(Tok::Ws) | Some(Tok::Cmt)) && !t.is_empty() {
+                    if !matches!(t.first(), Some(Tok::Ws) | Some(Tok::Cmt(_))) && !t.is_empty() {
                         return Err("directive glued to its operand".into());
                     }
                     if !lex_faithful(t) {
@@ -423,6 +523,7 @@ fn program_faithful(p: &Program) -> Result<(), String> {
                     }
                 }
                 Line::Include(n) => {
+                    let n = inc_name(n);
                     if n.is_empty() || !n.bytes().all(|c| c.is_ascii_alphanumeric() || c == b'.' || c == b'_' || c == b'/') {
                         return Err("include name".into());
                     }
@@ -721,7 +822,7 @@ const PUNCT_MERGE: &[(&str, &str, &str)] = &[
 impl<'a> Reference<'a> {
     fn rk_of(t: &Tok, in_body: bool) -> Option<RK> {
         Some(match t {
-            Tok::Ws | Tok::Cmt => return None,
+            Tok::Ws | Tok::Cmt(_) => return None,
             Tok::LParen => RK::LParen,
             Tok::RParen => RK::RParen,
             Tok::Comma => RK::Comma,
@@ -742,7 +843,7 @@ impl<'a> Reference<'a> {
     /// `#define` with the given tokens after the directive name
     fn define(&mut self, toks: &[Tok], paste_active: bool) -> Result<(), RefErr> {
         // a comment is white space
-        let toks: Vec<Tok> = toks.iter().map(|t| if *t == Tok::Cmt { Tok::Ws } else { t.clone() }).collect();
+        let toks: Vec<Tok> = toks.iter().map(|t| if matches!(t, Tok::Cmt(_)) { Tok::Ws } else { t.clone() }).collect();
         let toks = &toks[..];
         let mut i = 0;
         while i < toks.len() && toks[i] == Tok::Ws {
@@ -790,7 +891,7 @@ impl<'a> Reference<'a> {
     }
 
     fn undef(&mut self, toks: &[Tok]) -> Result<(), RefErr> {
-        let t: Vec<&Tok> = toks.iter().filter(|t| **t != Tok::Ws && **t != Tok::Cmt).collect();
+        let t: Vec<&Tok> = toks.iter().filter(|t| **t != Tok::Ws && !matches!(**t, Tok::Cmt(_))).collect();
         match t.as_slice() {
             [Tok::Id(n)] => {
                 self.macros.remove(n);
@@ -1218,7 +1319,14 @@ fn ref_file(r: &mut Reference, st: &mut RefRun, idx: usize, depth: usize) -> Res
                 ref_flush(r, st)?;
                 r.undef(t)?;
             }
+            // directives without effect (the text in front of a directive is complete: an invocation does not span it)
+            Line::Null => ref_flush(r, st)?,
             Line::Warning => ref_flush(r, st)?,
+            Line::Bad(_) => {
+                // the text in front of the directive is expanded first (its error wins), then the line is rejected
+                ref_flush(r, st)?;
+                return Err(RefErr::BadDefine);
+            }
             Line::Once => {
                 ref_flush(r, st)?;
                 // a file is identified by what the include handler says it really is
@@ -1230,7 +1338,7 @@ fn ref_file(r: &mut Reference, st: &mut RefRun, idx: usize, depth: usize) -> Res
                 if r.dev.blocks_at_file_boundary {
                     ref_flush(r, st)?;
                 }
-                let target = match st.files.iter().position(|f| &f.name == n) {
+                let target = match st.files.iter().position(|f| f.name == inc_name(n)) {
                     Some(i) => i,
                     None => {
                         ref_flush(r, st)?;
@@ -1255,12 +1363,16 @@ fn run_reference(p: &Program, dev: Dev, notes: &mut RefNotes) -> Result<Vec<Stri
     let mut r = Reference { macros: BTreeMap::new(), dev, notes };
     // "defines passed to compile behave exactly like #define lines placed before the first line"
     for (n, v) in &p.api {
+        // a define is a single line: a value that holds a line end is no define (fix 3c81ed5)
+        if v.contains(&Tok::Cmt(5)) {
+            return Err(RefErr::BadDefine);
+        }
         let mut line = vec![Tok::Ws];
         line.extend(n.iter().cloned());
         line.push(Tok::Ws);
         line.extend(v.iter().cloned());
         if dev.api_dup_keeps_first {
-            if let Some(Tok::Id(first)) = n.iter().find(|t| **t != Tok::Ws && **t != Tok::Cmt) {
+            if let Some(Tok::Id(first)) = n.iter().find(|t| **t != Tok::Ws && !matches!(**t, Tok::Cmt(_))) {
                 if r.macros.contains_key(first) {
                     continue;
                 }
@@ -1285,7 +1397,8 @@ fn ref_file_marked(r: &mut Reference, st: &mut RefRun) -> Result<(), RefErr> {
 
 const MACRO_NAMES: &[&str] = &["A", "B", "C", "D", "E", "F"];
 const PARAM_NAMES: &[&str] = &["X", "Y", "Z"];
-const PLAIN: &[&str] = &["P", "Q", "R", "AB", "P1"];
+/// (`defined` is an ordinary identifier outside `#if` / `#elif`: wave 5)
+const PLAIN: &[&str] = &["P", "Q", "R", "AB", "P1", "P", "Q", "R", "AB", "P1", "defined"];
 
 struct GenMacro {
     name: String,
@@ -1299,7 +1412,7 @@ struct Gen<'a> {
 }
 
 fn push_sep(out: &mut Vec<Tok>) {
-    if !matches!(out.last(), Some(Tok::Ws) | Some(Tok::Cmt) | None) {
+    if !matches!(out.last(), Some(Tok::Ws) | Some(Tok::Cmt(_)) | None) {
         out.push(Tok::Ws);
     }
 }
@@ -1365,23 +1478,67 @@ impl<'a> Gen<'a> {
             let mi = self.rng.below(self.macros.len() as u64) as usize;
             self.invocation(mi, params, depth, out, budget);
         } else if r < 5 && *budget > 4 {
-            // parenthesised group with a comma inside
-            push_sep(out);
-            out.push(Tok::LParen);
-            let t = self.atom(params);
-            out.push(t);
-            out.push(Tok::Comma);
-            let t = self.atom(params);
-            out.push(t);
-            out.push(Tok::RParen);
-            *budget -= 5;
-            self.hist.add("site:nested-parentheses-with-comma");
+            if self.rng.chance(1, 2) {
+                // parenthesised group with a comma inside
+                push_sep(out);
+                out.push(Tok::LParen);
+                let t = self.atom(params);
+                out.push(t);
+                out.push(Tok::Comma);
+                let t = self.atom(params);
+                out.push(t);
+                out.push(Tok::RParen);
+                *budget -= 5;
+                self.hist.add("site:nested-parentheses-with-comma");
+            } else {
+                // wave 5: groups of any shape -- empty, one item, several, nested in each other, commas behind an inner `)`
+                push_sep(out);
+                let d = self.group(params, depth, 1, out, budget);
+                self.hist.add(&format!("site:parenthesised-group-depth-{}", d));
+            }
         } else {
             push_sep(out);
             let t = self.atom(params);
             out.push(t);
             *budget -= 1;
         }
+    }
+
+    /// `(` items separated by commas `)`; an item is empty, an atom, two atoms, a nested group or an element (which may be
+    /// an invocation); returns the nesting depth reached
+    fn group(&mut self, params: usize, depth: u32, level: u32, out: &mut Vec<Tok>, budget: &mut i32) -> u32 {
+        out.push(Tok::LParen);
+        *budget -= 2;
+        let mut deepest = level;
+        let n = self.rng.below(4);
+        for i in 0..n {
+            if i > 0 {
+                out.push(Tok::Comma);
+                if self.rng.chance(1, 3) {
+                    out.push(Tok::Ws);
+                }
+            }
+            match self.rng.below(8) {
+                0 => {}
+                1 | 2 if level < 3 && *budget > 2 => {
+                    let d = self.group(params, depth, level + 1, out, budget);
+                    deepest = deepest.max(d);
+                    if self.rng.chance(1, 3) {
+                        let t = self.atom(params);
+                        out.push(Tok::Ws);
+                        out.push(t);
+                    }
+                }
+                3 if *budget > 3 => self.element(params, depth + 1, out, budget),
+                _ => {
+                    let t = self.atom(params);
+                    out.push(t);
+                    *budget -= 1;
+                }
+            }
+        }
+        out.push(Tok::RParen);
+        deepest
     }
 
     fn body(&mut self, params: usize, self_index: usize) -> Vec<Tok> {
@@ -1474,14 +1631,14 @@ impl<'a> Gen<'a> {
         let mut out = Vec::with_capacity(ts.len() + 4);
         for (i, t) in ts.iter().enumerate() {
             if *t == Tok::Ws && self.rng.chance(1, 5) {
-                out.push(Tok::Cmt);
+                out.push(Tok::Cmt(0));
                 self.hist.add("ws:comment");
                 continue;
             }
             out.push(t.clone());
-            let next_is_ws = matches!(ts.get(i + 1), Some(Tok::Ws) | Some(Tok::Cmt) | None);
+            let next_is_ws = matches!(ts.get(i + 1), Some(Tok::Ws) | Some(Tok::Cmt(_)) | None);
             if *t != Tok::Ws && !next_is_ws && self.rng.chance(1, 14) {
-                out.push(if self.rng.chance(1, 2) { Tok::Ws } else { Tok::Cmt });
+                out.push(if self.rng.chance(1, 2) { Tok::Ws } else { Tok::Cmt(0) });
                 self.hist.add("ws:inserted-at-token-boundary");
             }
         }
@@ -1636,7 +1793,7 @@ fn generate(rng: &mut Rng, hist: &mut Hist) -> Vec<Program> {
     let mut files: Vec<File> = (0..nfiles)
         .map(|i| {
             let name = if i == 0 { "main".to_string() } else { format!("f{}", i) };
-            File { name: name.clone(), real: name, lines: Vec::new() }
+            File { name: name.clone(), real: name, lines: Vec::new(), flavour: 0 }
         })
         .collect();
     let mut once = vec![false; nfiles];
@@ -1679,6 +1836,10 @@ fn generate(rng: &mut Rng, hist: &mut Hist) -> Vec<Program> {
         }
         if g.rng.chance(1, 20) {
             files[fi].lines.push(Line::Warning);
+        }
+        if g.rng.chance(1, 25) {
+            files[fi].lines.push(Line::Null);
+            g.hist.add("line:null-directive");
         }
     }
     // malformed directives now and then (the whole compilation is rejected: InvalidDefine / InvalidUndef)
@@ -1750,6 +1911,26 @@ fn generate(rng: &mut Rng, hist: &mut Hist) -> Vec<Program> {
             let at = safe_pos(&files[i].lines, at.min(files[i].lines.len()));
             files[i].lines.insert(at, Line::Include(name));
             g.hist.add("include:cycle-without-pragma-once");
+        }
+    }
+    // wave 5: `#pragma once` that is not the first line of its file (in force from that line on: an include of the file
+    // in front of it, or a repeated include, still sees the text), and in the entry file (included back by another file)
+    for i in 0..nfiles {
+        if !once[i] && g.rng.chance(1, 6) {
+            let at = g.rng.below(files[i].lines.len() as u64 + 1) as usize;
+            let at = safe_pos(&files[i].lines, at.min(files[i].lines.len()));
+            files[i].lines.insert(at, Line::Once);
+            g.hist.add(if i == 0 { "file:pragma-once-in-entry-file" } else { "file:pragma-once-not-first-line" });
+            if g.rng.chance(1, 2) && nfiles > 1 {
+                // somebody includes the file (again): behind or in front of the mark
+                let from = g.rng.below(nfiles as u64) as usize;
+                let at = g.rng.below(files[from].lines.len() as u64 + 1) as usize;
+                let at = if once[from] { at.max(1) } else { at };
+                let at = safe_pos(&files[from].lines, at.min(files[from].lines.len()));
+                let name = files[i].name.clone();
+                files[from].lines.insert(at, Line::Include(name));
+                g.hist.add("include:of-late-once-file");
+            }
         }
     }
     // every placement of the leading definitions: all in the file / all in the API list / a random split
@@ -1858,7 +2039,7 @@ fn spelled_operand(rng: &mut Rng, hist: &mut Hist) -> Option<Tok> {
 fn generate_paste_spellings(rng: &mut Rng, hist: &mut Hist) -> Program {
     let ws = |rng: &mut Rng, v: &mut Vec<Tok>| {
         if rng.chance(1, 2) {
-            v.push(if rng.chance(1, 6) { Tok::Cmt } else { Tok::Ws });
+            v.push(if rng.chance(1, 6) { Tok::Cmt(0) } else { Tok::Ws });
         }
     };
     let id = |s: &str| Tok::Id(s.to_string());
@@ -1991,7 +2172,7 @@ fn generate_paste_spellings(rng: &mut Rng, hist: &mut Hist) -> Program {
     }
     Program {
         api,
-        files: vec![File { name: "main".into(), real: "main".into(), lines }],
+        files: vec![File { name: "main".into(), real: "main".into(), lines, flavour: 0 }],
         strict: false,
     }
 }
@@ -2274,7 +2455,7 @@ fn generate_higher_order(rng: &mut Rng, hist: &mut Hist) -> Program {
         lines = keep;
         hist.add("higher-order:combinators-in-the-api-list");
     }
-    Program { api, files: vec![File { name: "main".into(), real: "main".into(), lines }], strict: true }
+    Program { api, files: vec![File { name: "main".into(), real: "main".into(), lines, flavour: 0 }], strict: true }
 }
 
 // ------------------------------------------------------------------------------------------------
@@ -2284,6 +2465,134 @@ fn generate_higher_order(rng: &mut Rng, hist: &mut Hist) -> Program {
 /// Without persistent paint (deviation `argument-repainted`) some small programs expand to millions of tokens in the
 /// real code (and in the model, which mirrors it): predicted with the reference run in RSSL-like mode under a small
 /// budget.  (The prediction misses some; generated programs therefore run in a worker process under a time limit.)
+/// wave 5, the SPELLING dimension: the same tokens written differently.  White space as tab / line continuation /
+/// block comment over a line end, a line comment at the end of a line, white space added at token boundaries (never in
+/// front of `(`: that would turn a function-like definition or an invocation into something else), `#include <f>`,
+/// files in CR LF, files without a final line end, `# define`.  Returns the original when the result does not lex
+/// faithfully (e.g. `/` in front of a line comment).
+fn respell(rng: &mut Rng, hist: &mut Hist, p: &Program) -> Program {
+    fn line(rng: &mut Rng, hist: &mut Hist, ts: &[Tok], directive: bool) -> Vec<Tok> {
+        let mut out: Vec<Tok> = Vec::with_capacity(ts.len() + 4);
+        for (i, t) in ts.iter().enumerate() {
+            if matches!(t, Tok::Ws | Tok::Cmt(0)) && rng.chance(1, 3) {
+                let k = [1u8, 1, 2, 2, 4][rng.below(5) as usize];
+                hist.add(&format!("spelling:ws-as-{}", ["", "continuation", "tab", "", "comment-over-line-end"][k as usize]));
+                out.push(Tok::Cmt(k));
+            } else {
+                out.push(t.clone());
+            }
+            let next_paren = matches!(ts.get(i + 1), Some(Tok::LParen));
+            if !next_paren && i + 1 < ts.len() && rng.chance(1, 12) {
+                out.push(Tok::Cmt([1u8, 2, 4][rng.below(3) as usize]));
+                hist.add("spelling:ws-inserted");
+            }
+        }
+        if (directive || !ts.is_empty()) && rng.chance(1, 5) {
+            out.push(Tok::Ws);
+            out.push(Tok::Cmt(3));
+            hist.add("spelling:line-comment-at-end");
+        }
+        out
+    }
+    let mut q = p.clone();
+    // names of the macros the files define (first identifier of a define line)
+    let macro_names: Vec<String> = p
+        .files
+        .iter()
+        .flat_map(|f| f.lines.iter())
+        .filter_map(|l| match l {
+            Line::Define(t) => t.iter().find_map(|t| if let Tok::Id(s) = t { Some(s.clone()) } else { None }),
+            _ => None,
+        })
+        .collect();
+    for f in q.files.iter_mut() {
+        for l in f.lines.iter_mut() {
+            match l {
+                // a text line that begins with white space (the line state machine stays at `StartOfLine`)
+                Line::Text(t) if !t.is_empty() && rng.chance(1, 6) => {
+                    t.insert(0, if rng.chance(1, 2) { Tok::Ws } else { Tok::Cmt(2) });
+                    hist.add("spelling:text-line-indented");
+                }
+                // a parameter that bears the name of a macro of the program (its own macro included): inside the
+                // replacement list the name is the parameter
+                Line::Define(t) if !p.strict && !macro_names.is_empty() && rng.chance(1, 8) => {
+                    let close = t.iter().position(|x| *x == Tok::RParen);
+                    let first_id = t.iter().position(|x| matches!(x, Tok::Id(_)));
+                    if let (Some(close), Some(fi)) = (close, first_id) {
+                        if t.get(fi + 1) == Some(&Tok::LParen) {
+                            let params: Vec<String> =
+                                t[fi + 2..close].iter().filter_map(|x| if let Tok::Id(s) = x { Some(s.clone()) } else { None }).collect();
+                            let new = macro_names[rng.below(macro_names.len() as u64) as usize].clone();
+                            if !params.is_empty() && !params.contains(&new) {
+                                let old = params[rng.below(params.len() as u64) as usize].clone();
+                                for x in t.iter_mut().skip(fi + 1) {
+                                    if *x == Tok::Id(old.clone()) {
+                                        *x = Tok::Id(new.clone());
+                                    }
+                                }
+                                hist.add("shape:parameter-named-like-a-macro");
+                            }
+                        }
+                    }
+                }
+                _ => {}
+            }
+        }
+    }
+    for f in q.files.iter_mut() {
+        for (bit, name) in [(1u8, "crlf"), (2, "no-final-line-end"), (4, "blank-after-hash")] {
+            if rng.chance(1, 3) {
+                f.flavour |= bit;
+                hist.add(&format!("spelling:file-{}", name));
+            }
+        }
+        for l in f.lines.iter_mut() {
+            match l {
+                Line::Define(t) | Line::Undef(t) => *t = line(rng, hist, t, true),
+                Line::Text(t) => *t = line(rng, hist, t, false),
+                Line::Include(n) => {
+                    if !n.starts_with('<') && rng.chance(1, 3) {
+                        *n = format!("<{}>", n);
+                        hist.add("spelling:include-angle");
+                    }
+                }
+                _ => {}
+            }
+        }
+    }
+    for (n, v) in q.api.iter_mut() {
+        // white space inside the parameter list of an API name: `F( X ,Y )`
+        if n.len() > 2 && rng.chance(1, 3) {
+            let mut out = Vec::new();
+            for (i, t) in n.iter().enumerate() {
+                out.push(t.clone());
+                if i >= 1 && i + 1 < n.len() && rng.chance(1, 3) {
+                    out.push(if rng.chance(1, 2) { Tok::Ws } else { Tok::Cmt(2) });
+                    hist.add("spelling:api-name-ws");
+                }
+            }
+            *n = out;
+        }
+        let mut out = Vec::new();
+        for t in v.iter() {
+            if matches!(t, Tok::Ws | Tok::Cmt(0)) && rng.chance(1, 3) {
+                out.push(Tok::Cmt([1u8, 2, 4][rng.below(3) as usize]));
+                hist.add("spelling:api-value-ws");
+            } else {
+                out.push(t.clone());
+            }
+        }
+        *v = out;
+    }
+    if program_faithful(&q).is_ok() {
+        hist.add("spelling:respelled-programs");
+        q
+    } else {
+        hist.add("spelling:respelling-unfaithful-kept-original");
+        p.clone()
+    }
+}
+
 fn predicted_to_explode(p: &Program) -> bool {
     let mut n0 = RefNotes { step_limit: Some(40_000), ..RefNotes::default() };
     let r0 = run_reference(p, Dev::from_bits(8 | 16 | 128 | 256 | 512), &mut n0);
@@ -2771,7 +3080,7 @@ fn generate_compile(rng: &mut Rng, hist: &mut Hist) -> String {
             names[rng.below(names.len() as u64) as usize].0.clone()
         } else if rng.chance(1, 12) {
             hist.add("compile:redefines-built-in");
-            "RSSL_TARGET_HLSL".to_string()
+            rng.pick(&["RSSL_TARGET_HLSL", "RSSL_TARGET_HLSL", "RSSL_TARGET_MSL", "__HLSL_VERSION"]).to_string()
         } else {
             format!("K{}", i)
         };
@@ -2784,7 +3093,11 @@ fn generate_compile(rng: &mut Rng, hist: &mut Hist) -> String {
                 (1 + rng.below(9)).to_string()
             }
         };
-        let body = if fnlike {
+        let body = if !fnlike && rng.chance(1, 10) {
+            // wave 5: a later macro named in the value (looked up when the value is used, not when it is defined)
+            hist.add("compile:forward-reference");
+            format!("(K{} + {})", i + 1, 1 + rng.below(5))
+        } else if fnlike {
             format!("((X) {} {})", rng.pick(&["+", "*", "-"]), operand(rng, &names))
         } else if rng.chance(1, 3) {
             (1 + rng.below(20)).to_string()
@@ -2897,6 +3210,54 @@ pub fn run(args: &Args, out: &mut Out) {
     // `##` operands of every token kind and spelling
     for _ in 0..(n / 5).max(50) {
         all.push(generate_paste_spellings(&mut rng, &mut hist));
+    }
+    // the spelling dimension: a third of the programs of every family written differently (same tokens)
+    for i in 0..all.len() {
+        if rng.chance(1, 3) {
+            let q = respell(&mut rng, &mut hist, &all[i]);
+            all[i] = q;
+        }
+    }
+    // a directive that is rejected (unknown pragma / command, malformed include), anywhere in any file
+    for _ in 0..(n / 50).max(10) {
+        let i = rng.below(all.len() as u64) as usize;
+        let mut q = all[i].clone();
+        if q.strict {
+            continue;
+        }
+        let fi = rng.below(q.files.len() as u64) as usize;
+        let at = rng.below(q.files[fi].lines.len() as u64 + 1) as usize;
+        let k = BAD_KINDS[rng.below(BAD_KINDS.len() as u64) as usize].0;
+        q.files[fi].lines.insert(at, Line::Bad(k));
+        hist.add(&format!("directive-rejected:{}", k));
+        all.push(q);
+    }
+    // an API define whose value holds a line end is rejected (fix 3c81ed5), whatever else the program holds
+    for _ in 0..(n / 50).max(20) {
+        let i = rng.below(all.len() as u64) as usize;
+        let mut q = all[i].clone();
+        if q.strict {
+            continue;
+        }
+        let at = rng.below(q.api.len() as u64 + 1) as usize;
+        let r = rng.below(7);
+        let v = match r {
+            0 => vec![Tok::Int("1".into()), Tok::Cmt(5), Tok::Int("2".into())],
+            1 => vec![Tok::Cmt(5)],
+            2 => vec![Tok::Id("P".into()), Tok::Ws, Tok::Cmt(5)],
+            _ => vec![Tok::Id("P".into())],
+        };
+        // ... and API names that are no macro head (`InvalidDefine`, as for the #define line), or one only with the value
+        let name = match r {
+            3 => vec![Tok::Int("1".into())],
+            4 => vec![Tok::Id("NL".into()), Tok::LParen],
+            5 => vec![Tok::Id("NL".into()), Tok::LParen, Tok::Int("1".into()), Tok::RParen],
+            6 => vec![Tok::LParen, Tok::Id("NL".into()), Tok::RParen],
+            _ => vec![Tok::Id("NL".into())],
+        };
+        q.api.insert(at, (name, v));
+        hist.add(if r < 3 { "api:value-with-line-end" } else { "api:malformed-name" });
+        all.push(q);
     }
     let programs = all.len() as u64;
     run_batch(&all, out, &mut hist);
